@@ -1,12 +1,15 @@
 package rules
 
 import (
+	"errors"
 	"fmt"
 	"go/constant"
 	"go/token"
 	"go/types"
 	"reflect"
+	"regexp"
 	"sort"
+	"strconv"
 	"strings"
 
 	"golang.org/x/tools/go/ssa"
@@ -57,6 +60,7 @@ func runC21(c *an.Check) {
 	c.Rule("C21.R3", "message structs: exported fields, unique JSON names (case-insensitive), scalar or paired-codec types, protocol field list covered")
 	c.Rule("C21.R4", "OnMessageReceived: oversized (> 100 KiB), non-peerswap and undecodable messages reach no decoder / handler / service call")
 	c.Rule("C21.R5", "every sent (payload, type) pair comes from one MarshalPeerswapMessage call")
+	c.Rule("C21.R7", "fallible decodes on the receive path (hex, strconv, json, and helpers built on them): the error is tested and on the error edge the decoded value reaches no handler / dispatch call and is not returned as if valid")
 	c.Rule("C21.R6", "a decoded message pointer is nil-tested before it is dereferenced (payload `null`)")
 	w := c.W
 	onMsg := w.Func("swap", "(*SwapService).OnMessageReceived")
@@ -91,10 +95,12 @@ func runC21(c *an.Check) {
 	c21R2Marshal(c, marshal)
 	c21R2Custom(c, custom, toHex, byNum)
 	c21R2Conversions(c, mt)
+	c21R2Received(c, custom, byNum)
 	c21R3(c)
 	c21R4(c, disp, numOf)
 	c21R5(c, marshal)
 	c21R6(c, disp)
+	c21R7(c, onMsg, custom)
 }
 
 // ---- R1 ------------------------------------------------------------------------------
@@ -450,6 +456,18 @@ func c21DependsOn(v ssa.Value, on map[ssa.Value]bool) bool {
 		case *ssa.ChangeType:
 			return rec(x.X)
 		case *ssa.MakeInterface:
+			return rec(x.X)
+		case *ssa.ChangeInterface:
+			return rec(x.X)
+		case *ssa.TypeAssert:
+			return rec(x.X)
+		case *ssa.Slice:
+			return rec(x.X)
+		case *ssa.IndexAddr:
+			return rec(x.X) || rec(x.Index)
+		case *ssa.FieldAddr:
+			return rec(x.X)
+		case *ssa.Field:
 			return rec(x.X)
 		case *ssa.Extract:
 			return rec(x.Tuple)
@@ -2182,4 +2200,1474 @@ func c21DeclaredMethod(w *an.World, nt *types.Named, name string) *ssa.Function 
 		}
 	}
 	return nil
+}
+
+// ---- bounded concrete interpreter ------------------------------------------------
+//
+// c21XRun interprets the SSA form of a small pure function on concrete inputs
+// (integers, strings, booleans, slices of them, errors). Library calls are
+// modelled for the handful of functions these rules meet (strconv, fmt.Sprintf
+// with integer verbs, regexp with a constant pattern, errors); in-module static
+// callees are interpreted recursively. Anything else ends the run as
+// "not interpretable" (never as a verdict). Nothing of the repository is
+// executed: the checker walks the instructions itself.
+
+type c21XSlice struct{ elems []interface{} }
+type c21XArr struct{ elems []interface{} }
+type c21XCell struct{ v interface{} }
+type c21XRef struct {
+	elems *[]interface{}
+	i     int
+}
+type c21XStruct struct{ fields []interface{} }
+type c21XErr struct{ msg string } // a non-nil error
+type c21XNil struct{}             // nil pointer / interface / error
+type c21XIface struct {
+	v interface{}
+	t types.Type
+}
+type c21XUnknown struct{ why string }
+type c21XTuple []interface{}
+
+type c21XInterp struct {
+	w     *an.World
+	steps int
+	// leaf may supply the value of an instruction the interpreter cannot compute
+	// (a field of external data, ...)
+	leaf func(v ssa.Value) (interface{}, bool)
+}
+
+type c21XAbort struct{ why string }
+
+func (it *c21XInterp) abort(format string, a ...interface{}) {
+	panic(c21XAbort{fmt.Sprintf(format, a...)})
+}
+
+// c21XRun interprets fn(args...). outcome is "return" or "panic"; ok is false
+// when the function left the interpreted subset (why says where).
+func c21XRun(w *an.World, fn *ssa.Function, args []interface{}, leaf func(ssa.Value) (interface{}, bool)) (results []interface{}, outcome string, ok bool, why string) {
+	it := &c21XInterp{w: w, leaf: leaf}
+	defer func() {
+		if r := recover(); r != nil {
+			if a, isA := r.(c21XAbort); isA {
+				results, outcome, ok, why = nil, "", false, a.why
+				return
+			}
+			panic(r)
+		}
+	}()
+	res, out := it.call(fn, args, 0)
+	return res, out, true, ""
+}
+
+func c21XZero(t types.Type) interface{} {
+	switch u := t.Underlying().(type) {
+	case *types.Basic:
+		switch {
+		case u.Info()&types.IsInteger != 0:
+			return int64(0)
+		case u.Info()&types.IsString != 0:
+			return ""
+		case u.Info()&types.IsBoolean != 0:
+			return false
+		}
+	case *types.Slice:
+		return &c21XSlice{}
+	case *types.Pointer, *types.Interface, *types.Map, *types.Chan, *types.Signature:
+		return c21XNil{}
+	case *types.Struct:
+		st := &c21XStruct{fields: make([]interface{}, u.NumFields())}
+		for i := range st.fields {
+			st.fields[i] = c21XZero(u.Field(i).Type())
+		}
+		return st
+	}
+	return c21XUnknown{"zero value of " + t.String()}
+}
+
+func (it *c21XInterp) call(fn *ssa.Function, args []interface{}, depth int) ([]interface{}, string) {
+	if fn.Blocks == nil || depth > 4 {
+		it.abort("call of %s (no body or too deep)", fn.Name())
+	}
+	if len(args) != len(fn.Params) {
+		it.abort("arity of %s", fn.Name())
+	}
+	env := map[ssa.Value]interface{}{}
+	for i, p := range fn.Params {
+		env[p] = args[i]
+	}
+	var get func(v ssa.Value) interface{}
+	get = func(v ssa.Value) interface{} {
+		if x, ok := env[v]; ok {
+			return x
+		}
+		switch k := v.(type) {
+		case *ssa.Const:
+			if k.Value == nil {
+				if _, isSl := k.Type().Underlying().(*types.Slice); isSl {
+					return &c21XSlice{}
+				}
+				return c21XNil{}
+			}
+			switch k.Value.Kind() {
+			case constant.Bool:
+				return constant.BoolVal(k.Value)
+			case constant.String:
+				return constant.StringVal(k.Value)
+			case constant.Int:
+				if i, ok := constant.Int64Val(k.Value); ok {
+					return i
+				}
+				if u, ok := constant.Uint64Val(k.Value); ok {
+					return int64(u)
+				}
+			}
+		case *ssa.Global:
+			// a package-level variable: its initialiser, when it is one call with constant arguments
+			if k.Pkg != nil {
+				if ini := k.Pkg.Func("init"); ini != nil {
+					for _, b := range ini.Blocks {
+						for _, in := range b.Instrs {
+							if st, ok := in.(*ssa.Store); ok && st.Addr == ssa.Value(k) {
+								if cc, ok := st.Val.(*ssa.Call); ok {
+									var as []interface{}
+									for _, a := range cc.Call.Args {
+										if c, isC := a.(*ssa.Const); isC && c.Value != nil && c.Value.Kind() == constant.String {
+											as = append(as, constant.StringVal(c.Value))
+										} else {
+											it.abort("initialiser of %s has non-constant arguments", k.Name())
+										}
+									}
+									if r, ok := it.lib(cc, as); ok {
+										return &c21XCell{v: r}
+									}
+								}
+							}
+						}
+					}
+				}
+			}
+		}
+		if it.leaf != nil {
+			if x, ok := it.leaf(v); ok {
+				return x
+			}
+		}
+		it.abort("value %s (%T) is not available", v.Name(), v)
+		return nil
+	}
+	blk := fn.Blocks[0]
+	var prev *ssa.BasicBlock
+	for {
+		// phis, in parallel
+		phis := map[ssa.Value]interface{}{}
+		for _, in := range blk.Instrs {
+			p, ok := in.(*ssa.Phi)
+			if !ok {
+				break
+			}
+			for i, pr := range blk.Preds {
+				if pr == prev {
+					phis[p] = get(p.Edges[i])
+					break
+				}
+			}
+		}
+		for k, v := range phis {
+			env[k] = v
+		}
+		for _, in := range blk.Instrs {
+			it.steps++
+			if it.steps > 200000 {
+				it.abort("step bound exceeded")
+			}
+			switch x := in.(type) {
+			case *ssa.Phi, *ssa.DebugRef, *ssa.Defer, *ssa.RunDefers:
+			case *ssa.Alloc:
+				el := x.Type().Underlying().(*types.Pointer).Elem()
+				if arr, isArr := el.Underlying().(*types.Array); isArr {
+					a := &c21XArr{elems: make([]interface{}, arr.Len())}
+					for i := range a.elems {
+						a.elems[i] = c21XZero(arr.Elem())
+					}
+					env[x] = a
+				} else {
+					env[x] = &c21XCell{v: c21XZero(el)}
+				}
+			case *ssa.Store:
+				switch a := get(x.Addr).(type) {
+				case *c21XCell:
+					a.v = get(x.Val)
+				case *c21XRef:
+					(*a.elems)[a.i] = get(x.Val)
+				default:
+					it.abort("store through %T", a)
+				}
+			case *ssa.UnOp:
+				v := get(x.X)
+				switch x.Op {
+				case token.MUL:
+					switch a := v.(type) {
+					case *c21XCell:
+						env[x] = a.v
+					case *c21XRef:
+						env[x] = (*a.elems)[a.i]
+					default:
+						if it.leaf != nil {
+							if r, ok := it.leaf(x); ok {
+								env[x] = r
+								continue
+							}
+						}
+						it.abort("load through %T", a)
+					}
+				case token.NOT:
+					b, ok := v.(bool)
+					if !ok {
+						it.abort("! of %T", v)
+					}
+					env[x] = !b
+				case token.SUB:
+					i, ok := v.(int64)
+					if !ok {
+						it.abort("- of %T", v)
+					}
+					env[x] = c21XWrapInt(-i, x.Type())
+				default:
+					it.abort("unary %s", x.Op)
+				}
+			case *ssa.BinOp:
+				env[x] = it.binop(x, get(x.X), get(x.Y))
+			case *ssa.Convert:
+				v := get(x.X)
+				switch a := v.(type) {
+				case int64:
+					if b, isB := x.Type().Underlying().(*types.Basic); isB && b.Info()&types.IsInteger != 0 {
+						env[x] = c21XWrapInt(a, x.Type())
+					} else {
+						it.abort("conversion of an integer to %s", x.Type())
+					}
+				case string:
+					env[x] = a // string <-> named string, []byte(string) kept as string
+				case *c21XSlice:
+					env[x] = a
+				default:
+					it.abort("conversion of %T", v)
+				}
+			case *ssa.ChangeType:
+				env[x] = get(x.X)
+			case *ssa.ChangeInterface:
+				env[x] = get(x.X)
+			case *ssa.MakeInterface:
+				env[x] = c21XIface{v: get(x.X), t: x.X.Type()}
+			case *ssa.FieldAddr:
+				var st *c21XStruct
+				switch a := get(x.X).(type) {
+				case *c21XCell:
+					st, _ = a.v.(*c21XStruct)
+				case *c21XRef:
+					st, _ = (*a.elems)[a.i].(*c21XStruct)
+				}
+				if st == nil || x.Field >= len(st.fields) {
+					if it.leaf != nil {
+						if r, ok := it.leaf(x); ok {
+							env[x] = r
+							continue
+						}
+					}
+					it.abort("field address in something that is not a local struct")
+				}
+				env[x] = &c21XRef{elems: &st.fields, i: x.Field}
+			case *ssa.Field:
+				st, ok := get(x.X).(*c21XStruct)
+				if !ok || x.Field >= len(st.fields) {
+					it.abort("field of something that is not a local struct")
+				}
+				env[x] = st.fields[x.Field]
+			case *ssa.IndexAddr:
+				i, ok := get(x.Index).(int64)
+				if !ok {
+					it.abort("non-integer index")
+				}
+				var elems *[]interface{}
+				switch a := get(x.X).(type) {
+				case *c21XArr:
+					elems = &a.elems
+				case *c21XSlice:
+					elems = &a.elems
+				default:
+					it.abort("index into %T", a)
+				}
+				if i < 0 || int(i) >= len(*elems) {
+					return nil, "panic: index out of range"
+				}
+				env[x] = &c21XRef{elems: elems, i: int(i)}
+			case *ssa.Slice:
+				lo, hi := int64(0), int64(-1)
+				if x.Low != nil {
+					lo, _ = get(x.Low).(int64)
+				}
+				if x.High != nil {
+					hi, _ = get(x.High).(int64)
+				}
+				switch a := get(x.X).(type) {
+				case *c21XArr:
+					if hi < 0 {
+						hi = int64(len(a.elems))
+					}
+					if lo < 0 || hi > int64(len(a.elems)) || lo > hi {
+						return nil, "panic: slice bounds out of range"
+					}
+					env[x] = &c21XSlice{elems: a.elems[lo:hi:hi]}
+				case *c21XSlice:
+					if hi < 0 {
+						hi = int64(len(a.elems))
+					}
+					if lo < 0 || hi > int64(len(a.elems)) || lo > hi {
+						return nil, "panic: slice bounds out of range"
+					}
+					env[x] = &c21XSlice{elems: a.elems[lo:hi:hi]}
+				case string:
+					if hi < 0 {
+						hi = int64(len(a))
+					}
+					if lo < 0 || hi > int64(len(a)) || lo > hi {
+						return nil, "panic: slice bounds out of range"
+					}
+					env[x] = a[lo:hi]
+				default:
+					it.abort("slice of %T", a)
+				}
+			case *ssa.Extract:
+				t, ok := get(x.Tuple).(c21XTuple)
+				if !ok || x.Index >= len(t) {
+					it.abort("extract from a non-tuple")
+				}
+				env[x] = t[x.Index]
+			case *ssa.Call:
+				var as []interface{}
+				for _, a := range x.Call.Args {
+					as = append(as, get(a))
+				}
+				if b, isB := x.Call.Value.(*ssa.Builtin); isB {
+					env[x] = it.builtin(b.Name(), as, x)
+					continue
+				}
+				if x.Call.IsInvoke() {
+					it.abort("interface call %s", x.Call.Method.Name())
+				}
+				f := x.Call.StaticCallee()
+				if f == nil {
+					it.abort("dynamic call")
+				}
+				if r, ok := it.lib(x, as); ok {
+					env[x] = r
+					continue
+				}
+				if it.w.InModule(f) && f.Blocks != nil {
+					if it.w.FnRel(f) == "log" {
+						env[x] = c21XTuple{}
+						continue
+					}
+					res, out := it.call(f, as, depth+1)
+					if out != "return" {
+						return nil, out
+					}
+					if len(res) == 1 {
+						env[x] = res[0]
+					} else {
+						env[x] = c21XTuple(res)
+					}
+					continue
+				}
+				it.abort("call of %s is not modelled", it.w.FuncName(f))
+			case *ssa.Jump:
+				prev, blk = blk, blk.Succs[0]
+			case *ssa.If:
+				b, ok := get(x.Cond).(bool)
+				if !ok {
+					it.abort("branch on a value that is not a known boolean")
+				}
+				prev = blk
+				if b {
+					blk = blk.Succs[0]
+				} else {
+					blk = blk.Succs[1]
+				}
+			case *ssa.Return:
+				var res []interface{}
+				for _, r := range x.Results {
+					res = append(res, get(r))
+				}
+				return res, "return"
+			case *ssa.Panic:
+				return nil, "panic"
+			default:
+				it.abort("instruction %T is not interpreted", in)
+			}
+		}
+		if blk == nil {
+			it.abort("fell off a block")
+		}
+	}
+}
+
+// c21XWrapInt applies Go's conversion semantics for the integer type t.
+func c21XWrapInt(i int64, t types.Type) int64 {
+	b, ok := t.Underlying().(*types.Basic)
+	if !ok {
+		return i
+	}
+	switch b.Kind() {
+	case types.Int8:
+		return int64(int8(i))
+	case types.Int16:
+		return int64(int16(i))
+	case types.Int32:
+		return int64(int32(i))
+	case types.Uint8:
+		return int64(uint8(i))
+	case types.Uint16:
+		return int64(uint16(i))
+	case types.Uint32:
+		return int64(uint32(i))
+	}
+	return i
+}
+
+func (it *c21XInterp) binop(x *ssa.BinOp, l, r interface{}) interface{} {
+	switch a := l.(type) {
+	case int64:
+		b, ok := r.(int64)
+		if !ok {
+			it.abort("integer %s %T", x.Op, r)
+		}
+		switch x.Op {
+		case token.ADD:
+			return c21XWrapInt(a+b, x.Type())
+		case token.SUB:
+			return c21XWrapInt(a-b, x.Type())
+		case token.MUL:
+			return c21XWrapInt(a*b, x.Type())
+		case token.QUO:
+			if b == 0 {
+				it.abort("division by zero")
+			}
+			return c21XWrapInt(a/b, x.Type())
+		case token.REM:
+			if b == 0 {
+				it.abort("division by zero")
+			}
+			return c21XWrapInt(a%b, x.Type())
+		case token.AND:
+			return a & b
+		case token.OR:
+			return a | b
+		case token.XOR:
+			return a ^ b
+		case token.SHL:
+			return c21XWrapInt(a<<uint(b), x.Type())
+		case token.SHR:
+			return a >> uint(b)
+		case token.EQL:
+			return a == b
+		case token.NEQ:
+			return a != b
+		case token.LSS:
+			return a < b
+		case token.LEQ:
+			return a <= b
+		case token.GTR:
+			return a > b
+		case token.GEQ:
+			return a >= b
+		}
+	case string:
+		b, ok := r.(string)
+		if !ok {
+			it.abort("string %s %T", x.Op, r)
+		}
+		switch x.Op {
+		case token.ADD:
+			return a + b
+		case token.EQL:
+			return a == b
+		case token.NEQ:
+			return a != b
+		case token.LSS:
+			return a < b
+		case token.LEQ:
+			return a <= b
+		case token.GTR:
+			return a > b
+		case token.GEQ:
+			return a >= b
+		}
+	case bool:
+		b, ok := r.(bool)
+		if !ok {
+			it.abort("bool %s %T", x.Op, r)
+		}
+		switch x.Op {
+		case token.EQL:
+			return a == b
+		case token.NEQ:
+			return a != b
+		case token.AND:
+			return a && b
+		case token.OR:
+			return a || b
+		}
+	}
+	// comparisons with nil
+	if x.Op == token.EQL || x.Op == token.NEQ {
+		isNil := func(v interface{}) (bool, bool) {
+			switch s := v.(type) {
+			case c21XNil:
+				return true, true
+			case *c21XErr:
+				return s == nil, true
+			case c21XIface:
+				return false, true
+			case *c21XSlice:
+				return s == nil || s.elems == nil, true
+			}
+			return false, false
+		}
+		_, lConst := x.X.(*ssa.Const)
+		_, rConst := x.Y.(*ssa.Const)
+		ln, lok := isNil(l)
+		rn, rok := isNil(r)
+		if lok && rok && (lConst || rConst) {
+			return (ln == rn) == (x.Op == token.EQL)
+		}
+	}
+	it.abort("binary %s on %T, %T", x.Op, l, r)
+	return nil
+}
+
+func (it *c21XInterp) builtin(name string, as []interface{}, at *ssa.Call) interface{} {
+	switch name {
+	case "len", "cap":
+		switch a := as[0].(type) {
+		case *c21XSlice:
+			if a == nil {
+				return int64(0)
+			}
+			return int64(len(a.elems))
+		case string:
+			return int64(len(a))
+		case *c21XArr:
+			return int64(len(a.elems))
+		}
+	case "append":
+		s, ok := as[0].(*c21XSlice)
+		if !ok {
+			break
+		}
+		var add []interface{}
+		switch t := as[1].(type) {
+		case *c21XSlice:
+			if t != nil {
+				add = t.elems
+			}
+		default:
+			it.abort("append of %T", t)
+		}
+		out := make([]interface{}, 0, len(s.elems)+len(add))
+		out = append(append(out, s.elems...), add...)
+		return &c21XSlice{elems: out}
+	case "min", "max":
+		best, ok := as[0].(int64)
+		if !ok {
+			break
+		}
+		for _, a := range as[1:] {
+			v, ok := a.(int64)
+			if !ok {
+				it.abort("%s of %T", name, a)
+			}
+			if (name == "min" && v < best) || (name == "max" && v > best) {
+				best = v
+			}
+		}
+		return best
+	}
+	it.abort("builtin %s is not modelled for these operands", name)
+	return nil
+}
+
+// c21XGoValue turns an interpreter value into a Go value for fmt.
+func c21XGoValue(v interface{}) interface{} {
+	if i, ok := v.(c21XIface); ok {
+		if n, isInt := i.v.(int64); isInt {
+			if b, isB := i.t.Underlying().(*types.Basic); isB {
+				switch b.Kind() {
+				case types.Uint8:
+					return uint8(n)
+				case types.Uint16:
+					return uint16(n)
+				case types.Uint32:
+					return uint32(n)
+				case types.Uint, types.Uint64, types.Uintptr:
+					return uint64(n)
+				case types.Int8:
+					return int8(n)
+				case types.Int16:
+					return int16(n)
+				case types.Int32:
+					return int32(n)
+				}
+			}
+			return n
+		}
+		return c21XGoValue(i.v)
+	}
+	switch x := v.(type) {
+	case *c21XErr:
+		if x == nil {
+			return nil
+		}
+		return errors.New(x.msg)
+	case c21XNil:
+		return nil
+	}
+	return v
+}
+
+// lib models the library functions these rules meet.
+func (it *c21XInterp) lib(call *ssa.Call, as []interface{}) (interface{}, bool) {
+	f := call.Call.StaticCallee()
+	if f == nil || it.w.InModule(f) {
+		return nil, false
+	}
+	name := it.w.Info(call).Name
+	str := func(i int) string {
+		s, ok := as[i].(string)
+		if !ok {
+			it.abort("%s: argument %d is not a string", name, i)
+		}
+		return s
+	}
+	num := func(i int) int64 {
+		n, ok := as[i].(int64)
+		if !ok {
+			it.abort("%s: argument %d is not an integer", name, i)
+		}
+		return n
+	}
+	errOf := func(err error) interface{} {
+		if err == nil {
+			return c21XNil{}
+		}
+		return &c21XErr{msg: err.Error()}
+	}
+	switch name {
+	case "func:strconv.Atoi":
+		n, err := strconv.Atoi(str(0))
+		return c21XTuple{int64(n), errOf(err)}, true
+	case "func:strconv.ParseInt":
+		n, err := strconv.ParseInt(str(0), int(num(1)), int(num(2)))
+		return c21XTuple{n, errOf(err)}, true
+	case "func:strconv.ParseUint":
+		n, err := strconv.ParseUint(str(0), int(num(1)), int(num(2)))
+		return c21XTuple{int64(n), errOf(err)}, true
+	case "func:strconv.FormatInt":
+		return strconv.FormatInt(num(0), int(num(1))), true
+	case "func:strconv.FormatUint":
+		return strconv.FormatUint(uint64(num(0)), int(num(1))), true
+	case "func:strconv.Itoa":
+		return strconv.Itoa(int(num(0))), true
+	case "func:fmt.Sprintf", "func:fmt.Errorf":
+		var vs []interface{}
+		if len(as) > 1 {
+			sl, ok := as[1].(*c21XSlice)
+			if !ok {
+				it.abort("%s: variadic arguments", name)
+			}
+			if sl != nil {
+				for _, e := range sl.elems {
+					vs = append(vs, c21XGoValue(e))
+				}
+			}
+		}
+		if name == "func:fmt.Errorf" {
+			return &c21XErr{msg: fmt.Sprintf(strings.ReplaceAll(str(0), "%w", "%v"), vs...)}, true
+		}
+		return fmt.Sprintf(str(0), vs...), true
+	case "func:errors.New":
+		return &c21XErr{msg: str(0)}, true
+	case "func:regexp.MustCompile":
+		re, err := regexp.Compile(str(0))
+		if err != nil {
+			it.abort("pattern does not compile")
+		}
+		return re, true
+	case "func:(*regexp.Regexp).FindAllString":
+		re, ok := as[0].(*regexp.Regexp)
+		if !ok {
+			it.abort("regexp receiver is not a compiled constant pattern")
+		}
+		ms := re.FindAllString(str(1), int(num(2)))
+		if ms == nil {
+			return &c21XSlice{}, true
+		}
+		out := &c21XSlice{elems: make([]interface{}, len(ms))}
+		for i, m := range ms {
+			out.elems[i] = m
+		}
+		return out, true
+	case "func:(*regexp.Regexp).FindStringSubmatch":
+		re, ok := as[0].(*regexp.Regexp)
+		if !ok {
+			it.abort("regexp receiver is not a compiled constant pattern")
+		}
+		ms := re.FindStringSubmatch(str(1))
+		if ms == nil {
+			return &c21XSlice{}, true
+		}
+		out := &c21XSlice{elems: make([]interface{}, len(ms))}
+		for i, m := range ms {
+			out.elems[i] = m
+		}
+		return out, true
+	case "func:strings.TrimPrefix":
+		return strings.TrimPrefix(str(0), str(1)), true
+	case "func:strings.TrimLeft":
+		return strings.TrimLeft(str(0), str(1)), true
+	case "func:strings.ToLower":
+		return strings.ToLower(str(0)), true
+	case "func:strings.HasPrefix":
+		return strings.HasPrefix(str(0), str(1)), true
+	case "func:strings.Split":
+		parts := strings.Split(str(0), str(1))
+		out := &c21XSlice{elems: make([]interface{}, len(parts))}
+		for i, m := range parts {
+			out.elems[i] = m
+		}
+		return out, true
+	}
+	return nil, false
+}
+
+// c21XEvalExpr computes the value of an expression of a function that is not run
+// as a whole: constants, conversions, operators and calls over leaves supplied
+// by leaf.
+func c21XEvalExpr(w *an.World, v ssa.Value, leaf func(ssa.Value) (interface{}, bool)) (res interface{}, ok bool, why string) {
+	it := &c21XInterp{w: w, leaf: leaf}
+	defer func() {
+		if r := recover(); r != nil {
+			if a, isA := r.(c21XAbort); isA {
+				res, ok, why = nil, false, a.why
+				return
+			}
+			panic(r)
+		}
+	}()
+	var ev func(v ssa.Value, depth int) interface{}
+	ev = func(v ssa.Value, depth int) interface{} {
+		if depth > 16 {
+			it.abort("expression too deep")
+		}
+		if r, ok := leaf(v); ok {
+			return r
+		}
+		switch x := v.(type) {
+		case *ssa.Const:
+			if x.Value != nil {
+				switch x.Value.Kind() {
+				case constant.Bool:
+					return constant.BoolVal(x.Value)
+				case constant.String:
+					return constant.StringVal(x.Value)
+				case constant.Int:
+					if i, ok := constant.Int64Val(x.Value); ok {
+						return i
+					}
+				}
+			}
+			return c21XNil{}
+		case *ssa.Convert:
+			a := ev(x.X, depth+1)
+			if i, isInt := a.(int64); isInt {
+				return c21XWrapInt(i, x.Type())
+			}
+			return a
+		case *ssa.ChangeType:
+			return ev(x.X, depth+1)
+		case *ssa.BinOp:
+			return it.binop(x, ev(x.X, depth+1), ev(x.Y, depth+1))
+		case *ssa.Call:
+			var as []interface{}
+			for _, a := range x.Call.Args {
+				as = append(as, ev(a, depth+1))
+			}
+			if b, isB := x.Call.Value.(*ssa.Builtin); isB {
+				return it.builtin(b.Name(), as, x)
+			}
+			f := x.Call.StaticCallee()
+			if f == nil {
+				it.abort("dynamic call in the expression")
+			}
+			if r, ok := it.lib(x, as); ok {
+				return r
+			}
+			if w.InModule(f) && f.Blocks != nil {
+				out, how := it.call(f, as, 1)
+				if how != "return" {
+					it.abort("callee %s", how)
+				}
+				if len(out) == 1 {
+					return out[0]
+				}
+				return c21XTuple(out)
+			}
+			it.abort("call of %s is not modelled", w.FuncName(f))
+		case *ssa.Extract:
+			t, ok := ev(x.Tuple, depth+1).(c21XTuple)
+			if !ok || x.Index >= len(t) {
+				it.abort("extract from a non-tuple")
+			}
+			return t[x.Index]
+		}
+		it.abort("expression node %T is not evaluated", v)
+		return nil
+	}
+	return ev(v, 0), true, ""
+}
+
+// ---- R2: the received type number on its way to the parser ---------------------------
+
+// c21IsWireType: a load of the Type field of lnrpc's CustomMessage (the 32-bit
+// type number of a received custom message).
+func c21IsWireType(v ssa.Value) bool {
+	var st types.Type
+	var idx int
+	switch x := v.(type) {
+	case *ssa.UnOp:
+		fa, ok := x.X.(*ssa.FieldAddr)
+		if x.Op != token.MUL || !ok {
+			return false
+		}
+		st, idx = fa.X.Type(), fa.Field
+	case *ssa.Field:
+		st, idx = x.X.Type(), x.Field
+	default:
+		return false
+	}
+	n := an.NamedOf(st)
+	if n == nil || n.Obj().Pkg() == nil || n.Obj().Name() != "CustomMessage" || !strings.HasSuffix(n.Obj().Pkg().Path(), "/lnrpc") {
+		return false
+	}
+	return strings.HasSuffix(an.FieldName(st, idx), ".Type")
+}
+
+func c21R2Received(c *an.Check, custom *ssa.Function, byNum map[int64]int) {
+	w := c.W
+	// sources
+	type src struct {
+		v  ssa.Value
+		fn *ssa.Function
+	}
+	var srcs []src
+	for _, fn := range prodFuncs(w) {
+		for _, b := range fn.Blocks {
+			for _, in := range b.Instrs {
+				if v, ok := in.(ssa.Value); ok && c21IsWireType(v) {
+					srcs = append(srcs, src{v, fn})
+				}
+			}
+		}
+	}
+	c.AtLeast("C21.R2", "reads of a received message's numeric type (lnrpc CustomMessage.Type)", len(srcs), 1)
+
+	// (A) end to end: number -> type string (as the back-end builds it) -> PeerswapCustomMessageType
+	samples := []int64{0, 1, 42067, 42068, 42086, 42087, 65535, 0x10000 + 42069, 0x7a465, 0xffff0000 | 42079, 0xffffa45d, 0x10000 + 42085, 0x20000 + 42077}
+	for _, e := range c21Proto {
+		samples = append(samples, e.num)
+	}
+	seen := map[string]int{}
+	for _, s := range srcs {
+		for _, call := range an.Calls(s.fn) {
+			for _, a := range call.Common().Args {
+				if b, isB := a.Type().Underlying().(*types.Basic); !isB || b.Info()&types.IsString == 0 {
+					continue
+				}
+				if !c21DependsOn(a, map[ssa.Value]bool{s.v: true}) {
+					continue
+				}
+				cons := w.FuncName(s.fn) + " received type number -> type string -> parser"
+				seen[cons]++
+				if seen[cons] > 1 {
+					cons += fmt.Sprintf(" #%d", seen[cons])
+				}
+				var wrong []string
+				unknown := ""
+				for _, x := range samples {
+					x := x
+					str, ok, why := c21XEvalExpr(w, a, func(v ssa.Value) (interface{}, bool) {
+						if v == s.v {
+							return x, true
+						}
+						return nil, false
+					})
+					ts, isStr := str.(string)
+					if !ok || !isStr {
+						unknown = "the type string cannot be computed: " + why
+						break
+					}
+					res, outcome, ok, why := c21XRun(w, custom, []interface{}{ts}, nil)
+					if !ok || outcome != "return" || len(res) != 2 {
+						unknown = "PeerswapCustomMessageType cannot be interpreted: " + why + outcome
+						break
+					}
+					_, errNil := res[1].(c21XNil)
+					got, _ := res[0].(int64)
+					_, isProto := byNum[x]
+					switch {
+					case isProto && (!errNil || got != x):
+						wrong = append(wrong, fmt.Sprintf("type %d arrives as %q and is not recognised as %d", x, ts, x))
+					case !isProto && errNil:
+						wrong = append(wrong, fmt.Sprintf("the foreign type %d (0x%x) arrives as %q and is accepted as peerswap type %d", x, x, ts, got))
+					}
+				}
+				switch {
+				case len(wrong) > 0:
+					if len(wrong) > 5 {
+						wrong = append(wrong[:5], fmt.Sprintf("… %d more", len(wrong)-5))
+					}
+					c.Bad("C21.R2", cons, w.Pos(call.Pos()), "a received type number is not handed to the parser faithfully: "+strings.Join(wrong, "; "))
+				case unknown != "":
+					c.Note("C21.R2", cons, w.Pos(call.Pos()), "not interpreted end to end ("+unknown+"); the conversions on the way are judged structurally")
+				default:
+					c.OK("C21.R2", cons, w.Pos(call.Pos()), fmt.Sprintf("%d sample numbers (incl. numbers above 16 bits whose low 16 bits are a peerswap type): the protocol numbers are recognised, all others rejected", len(samples)))
+				}
+			}
+		}
+	}
+
+	// (B) no narrowing conversion or masking of a received type number anywhere on its way
+	tainted := map[ssa.Value]bool{}
+	var work []ssa.Value
+	add := func(v ssa.Value) {
+		if v != nil && !tainted[v] {
+			tainted[v] = true
+			work = append(work, v)
+		}
+	}
+	for _, s := range srcs {
+		add(s.v)
+	}
+	for _, call := range an.Calls(custom) {
+		if cc, ok := call.(*ssa.Call); ok {
+			if n := w.Info(call).Name; n == "func:strconv.ParseInt" || n == "func:strconv.ParseUint" {
+				for _, rv := range an.ResultValues(cc, 0) {
+					add(rv)
+				}
+			}
+		}
+	}
+	callersOf := map[*ssa.Function][]ssa.CallInstruction{}
+	for _, g := range prodFuncs(w) {
+		for _, call := range an.Calls(g) {
+			if f := call.Common().StaticCallee(); f != nil && w.InModule(f) {
+				callersOf[f] = append(callersOf[f], call)
+			}
+		}
+	}
+	nConv := 0
+	seenCons := map[string]int{}
+	report := func(fn *ssa.Function, in ssa.Instruction, operand ssa.Value, what string, dstBits int, dstSigned bool) {
+		cons := w.FuncName(fn) + " " + what + " of a received type number"
+		seenCons[cons]++
+		if seenCons[cons] > 1 {
+			cons += fmt.Sprintf(" #%d", seenCons[cons])
+		}
+		// a range test that confines the operand to the narrower type?
+		term := w.Term(operand)
+		maxDst := int64(1)<<uint(dstBits) - 1
+		if dstSigned {
+			maxDst = int64(1)<<uint(dstBits-1) - 1
+		}
+		upper, lower, mentioned := false, false, false
+		if _, sgn, ok := c21IntWidth(operand.Type()); ok && !sgn {
+			lower = true
+		}
+		for _, f := range w.FactsDominating(in) {
+			coef, has := f.Terms[term]
+			if !has || f.NonNum || len(f.Terms) != 1 {
+				continue
+			}
+			mentioned = true
+			switch {
+			case coef == -1 && f.Rel == ">=" && f.Const <= maxDst: // x <= K
+				upper = true
+			case coef == -1 && f.Rel == ">" && f.Const <= maxDst+1: // x < K
+				upper = true
+			case coef == 1 && (f.Rel == ">=" || f.Rel == ">") && f.Const <= 0 && -f.Const >= 0: // x >= L >= 0
+				lower = true
+			}
+		}
+		switch {
+		case upper && lower:
+			c.OK("C21.R2", cons, w.Pos(in.Pos()), "behind a range test that confines the value to the narrower type")
+		case mentioned:
+			c.Unknown("C21.R2", cons, w.Pos(in.Pos()), "behind a comparison of the operand that this rule cannot turn into a range of the narrower type")
+		default:
+			c.Bad("C21.R2", cons, w.Pos(in.Pos()), fmt.Sprintf("the type number of a received message is cut to %d bits without a range test on its way to PeerswapCustomMessageType: a foreign type whose low %d bits equal a peerswap number (0x1a455, 0x7a465, 0xffffa45d …) is delivered and accepted as that peerswap message", dstBits, dstBits))
+		}
+	}
+	for len(work) > 0 {
+		v := work[len(work)-1]
+		work = work[:len(work)-1]
+		if v.Referrers() == nil {
+			continue
+		}
+		for _, r := range *v.Referrers() {
+			switch x := r.(type) {
+			case *ssa.Convert:
+				sb, _, ok1 := c21IntWidth(x.X.Type())
+				db, dsgn, ok2 := c21IntWidth(x.Type())
+				if ok1 && ok2 {
+					nConv++
+					if db < sb {
+						report(x.Parent(), x, x.X, fmt.Sprintf("narrowing %s to %s", x.X.Type(), x.Type()), db, dsgn)
+					}
+					add(x)
+				}
+			case *ssa.ChangeType:
+				add(x)
+			case *ssa.Phi:
+				add(x)
+			case *ssa.MakeInterface:
+				add(x)
+			case *ssa.BinOp:
+				switch x.Op {
+				case token.AND, token.REM:
+					k, isK := an.ConstInt(x.Y)
+					if !isK {
+						k, isK = an.ConstInt(x.X)
+					}
+					parityOnly := x.Referrers() != nil && len(*x.Referrers()) > 0
+					if x.Referrers() != nil {
+						for _, u := range *x.Referrers() {
+							cmp, isCmp := u.(*ssa.BinOp)
+							small := false
+							if isCmp && (cmp.Op == token.EQL || cmp.Op == token.NEQ) {
+								if kk, ok := an.ConstInt(cmp.Y); ok && kk >= 0 && kk <= 1 {
+									small = true
+								}
+								if kk, ok := an.ConstInt(cmp.X); ok && kk >= 0 && kk <= 1 {
+									small = true
+								}
+							}
+							if !small {
+								parityOnly = false
+							}
+						}
+					}
+					if isK && !parityOnly {
+						bits := 0
+						m := k
+						if x.Op == token.AND {
+							m = k + 1
+						}
+						for b := 1; b < 63; b++ {
+							if m == int64(1)<<uint(b) {
+								bits = b
+							}
+						}
+						if sb, _, ok := c21IntWidth(x.Type()); ok && bits > 0 && bits < sb {
+							nConv++
+							report(x.Parent(), x, x.X, fmt.Sprintf("masking (%s %d)", x.Op, k), bits, false)
+						}
+					}
+					add(x)
+				case token.ADD, token.SUB, token.MUL, token.OR, token.XOR, token.SHL, token.SHR, token.QUO:
+					add(x)
+				}
+			case *ssa.Store:
+				if al, ok := x.Addr.(*ssa.Alloc); ok && x.Val == v && al.Referrers() != nil {
+					for _, lr := range *al.Referrers() {
+						if ld, ok := lr.(*ssa.UnOp); ok && ld.Op == token.MUL {
+							add(ld)
+						}
+					}
+				}
+			case *ssa.Return:
+				g := x.Parent()
+				for i, res := range x.Results {
+					if res != v {
+						continue
+					}
+					for _, call := range callersOf[an.EnclosingTop(g)] {
+						cv, ok := call.(*ssa.Call)
+						if !ok || g.Parent() != nil {
+							continue
+						}
+						if len(x.Results) == 1 {
+							add(cv)
+						} else {
+							for _, rv := range an.ResultValues(cv, i) {
+								add(rv)
+							}
+						}
+					}
+				}
+			case ssa.CallInstruction:
+				f := x.Common().StaticCallee()
+				if f == nil || !w.InModule(f) || f.Blocks == nil {
+					continue
+				}
+				for i, a := range x.Common().Args {
+					if a == v && i < len(f.Params) {
+						add(f.Params[i])
+					}
+				}
+			}
+		}
+	}
+	c.AtLeast("C21.R2", "integer conversions applied to a received type number", nConv, 2)
+}
+
+// ---- R7: fallible decodes on the receive path ------------------------------------------
+
+// c21FallibleLib: library decoders whose value result is meaningless (or, for
+// hex.DecodeString, a silently truncated prefix) when the error is non-nil.
+var c21FallibleLib = map[string]bool{
+	"func:encoding/hex.DecodeString": true, "func:encoding/hex.Decode": true,
+	"func:strconv.ParseInt": true, "func:strconv.ParseUint": true, "func:strconv.Atoi": true, "func:strconv.ParseFloat": true, "func:strconv.ParseBool": true,
+	"func:encoding/json.Unmarshal": true, "func:encoding/base64.(*Encoding).DecodeString": true,
+}
+
+func c21SameSig(a *types.Signature, params, results *types.Tuple) bool {
+	if a.Params().Len() != params.Len() || a.Results().Len() != results.Len() {
+		return false
+	}
+	for i := 0; i < params.Len(); i++ {
+		if !types.Identical(a.Params().At(i).Type(), params.At(i).Type()) {
+			return false
+		}
+	}
+	for i := 0; i < results.Len(); i++ {
+		if !types.Identical(a.Results().At(i).Type(), results.At(i).Type()) {
+			return false
+		}
+	}
+	return true
+}
+
+// c21ContainsDecode: f calls one of the fallible library decoders directly.
+func c21ContainsDecode(w *an.World, f *ssa.Function) bool {
+	if f == nil || f.Blocks == nil {
+		return false
+	}
+	for _, call := range an.Calls(f) {
+		if c21FallibleLib[w.Info(call).Name] {
+			return true
+		}
+	}
+	return false
+}
+
+func c21R7(c *an.Check, onMsg, custom *ssa.Function) {
+	w := c.W
+	hp, hr := onMsg.Signature.Params(), onMsg.Signature.Results()
+	// receive-path functions
+	path := map[*ssa.Function]string{}
+	for _, fn := range prodFuncs(w) {
+		if c21SameSig(fn.Signature, hp, hr) {
+			path[fn] = "message handler"
+		}
+		for _, call := range an.Calls(fn) {
+			if _, isGo := call.(*ssa.Go); isGo {
+				continue
+			}
+			if call.Common().StaticCallee() == custom {
+				if path[fn] == "" {
+					path[fn] = "type parser caller"
+				}
+			}
+			if sig := call.Common().Signature(); sig != nil && c21SameSig(sig, hp, hr) && call.Common().StaticCallee() == nil && !call.Common().IsInvoke() {
+				if path[fn] == "" {
+					path[fn] = "receive hook"
+				}
+			}
+		}
+	}
+	path[custom] = "type parser"
+	// data-producing helpers they call (one level)
+	helpers := map[*ssa.Function]bool{}
+	for fn := range path {
+		for _, call := range an.Calls(fn) {
+			g := call.Common().StaticCallee()
+			if g == nil || !w.InModule(g) || g.Blocks == nil || path[g] != "" || !c21ContainsDecode(w, g) {
+				continue
+			}
+			res := g.Signature.Results()
+			data := false
+			for i := 0; i < res.Len(); i++ {
+				if !an.IsErrorType(res.At(i).Type()) {
+					data = true
+				}
+			}
+			if data {
+				helpers[g] = true
+			}
+		}
+	}
+	var fns []*ssa.Function
+	for fn := range path {
+		fns = append(fns, fn)
+	}
+	for g := range helpers {
+		fns = append(fns, g)
+	}
+	sort.Slice(fns, func(i, j int) bool { return w.FuncName(fns[i]) < w.FuncName(fns[j]) })
+
+	isSink := func(call ssa.CallInstruction) bool {
+		ci := w.Info(call)
+		switch {
+		case strings.HasPrefix(ci.Name, "builtin:"):
+			return false
+		case ci.Static != nil && !w.InModule(ci.Static):
+			return false
+		case ci.Static != nil && c21EffectFree(w, ci.Static):
+			return false
+		}
+		return true
+	}
+	nSites := 0
+	seen := map[string]int{}
+	for _, fn := range fns {
+		errIdxFn := -1
+		for i := fn.Signature.Results().Len() - 1; i >= 0; i-- {
+			if an.IsErrorType(fn.Signature.Results().At(i).Type()) {
+				errIdxFn = i
+				break
+			}
+		}
+		for _, call := range an.Calls(fn) {
+			cc, ok := call.(*ssa.Call)
+			if !ok {
+				continue
+			}
+			ci := w.Info(call)
+			isLib := c21FallibleLib[ci.Name]
+			isHelper := ci.Static != nil && (helpers[ci.Static] || ci.Static == custom) && an.ErrResultIndex(cc) >= 0 && cc.Call.Signature().Results().Len() >= 2
+			if !isLib && !isHelper {
+				continue
+			}
+			ei := an.ErrResultIndex(cc)
+			if ei < 0 {
+				continue
+			}
+			// decoded values
+			vals := map[ssa.Value]bool{}
+			if ci.Name == "func:encoding/json.Unmarshal" || ci.Name == "func:encoding/hex.Decode" {
+				idx := 1
+				if ci.Name == "func:encoding/hex.Decode" {
+					idx = 0
+				}
+				t := c21StripConv(cc.Call.Args[idx])
+				vals[t] = true
+				if al, ok := t.(*ssa.Alloc); ok && al.Referrers() != nil {
+					for _, r := range *al.Referrers() {
+						if ld, ok := r.(*ssa.UnOp); ok && ld.Op == token.MUL {
+							vals[ld] = true
+						}
+					}
+				}
+			} else {
+				n := cc.Call.Signature().Results().Len()
+				for i := 0; i < n; i++ {
+					if i == ei {
+						continue
+					}
+					for _, rv := range an.ResultValues(cc, i) {
+						vals[rv] = true
+					}
+				}
+			}
+			nSites++
+			name := strings.TrimPrefix(ci.Name, "func:")
+			cons := w.FuncName(fn) + " decode " + name
+			seen[cons]++
+			if seen[cons] > 1 {
+				cons += fmt.Sprintf(" #%d", seen[cons])
+			}
+			pos := w.Pos(call.Pos())
+			// does the value flow anywhere at all?
+			used := false
+			for v := range vals {
+				if v.Referrers() != nil && len(*v.Referrers()) > 0 {
+					if _, isAl := v.(*ssa.Alloc); !isAl {
+						used = true
+					}
+				}
+			}
+			if !used {
+				c.OK("C21.R7", cons, pos, "the decoded value is not used")
+				continue
+			}
+			var errV ssa.Value
+			if cc.Call.Signature().Results().Len() == 1 {
+				errV = cc
+			} else if vs := an.ResultValues(cc, ei); len(vs) > 0 {
+				errV = vs[0]
+			}
+			_, failE := an.OkEdges(cc)
+			// the first place where the value is consumed / handed on, for the report
+			firstSink := func(blocks map[*ssa.BasicBlock]bool) (string, string) {
+				for _, b := range fn.Blocks {
+					if blocks != nil && !blocks[b] {
+						continue
+					}
+					for _, in := range b.Instrs {
+						switch x := in.(type) {
+						case ssa.CallInstruction:
+							if x == ssa.CallInstruction(cc) || !isSink(x) {
+								continue
+							}
+							for _, a := range x.Common().Args {
+								if c21DependsOn(a, vals) {
+									return "call " + strings.TrimPrefix(strings.TrimPrefix(w.Info(x).Name, "func:"), "dyn:"), w.Pos(x.Pos())
+								}
+							}
+							if x.Common().IsInvoke() && c21DependsOn(x.Common().Value, vals) {
+								return "call " + w.Info(x).Name, w.Pos(x.Pos())
+							}
+						case *ssa.Return:
+							for i, res := range x.Results {
+								if i == errIdxFn || !c21DependsOn(res, vals) {
+									continue
+								}
+								// returned together with a certainly non-nil error?
+								if errIdxFn >= 0 && errV != nil && (x.Results[errIdxFn] == errV || c21FreshErr(x.Results[errIdxFn])) {
+									continue
+								}
+								return "return of the decoded value", w.Pos(x.Pos())
+							}
+						}
+					}
+				}
+				return "", ""
+			}
+			switch {
+			case errV == nil || errV.Referrers() == nil || len(*errV.Referrers()) == 0:
+				sink, spos := firstSink(nil)
+				if sink == "" {
+					c.OK("C21.R7", cons, pos, "the error is not used, but the decoded value reaches no handler, dispatch or return")
+				} else {
+					c.Bad("C21.R7", cons, pos, "the error of "+name+" is discarded while the decoded value flows on to "+sink+" ("+spos+"): a frame that does not decode is handled as if it had")
+				}
+			case len(failE) == 0:
+				// handed back to the caller together with the value?
+				propagated := errIdxFn >= 0
+				if propagated {
+					for _, r := range an.Returns(fn) {
+						dep := false
+						for i, res := range r.Results {
+							if i != errIdxFn && c21DependsOn(res, vals) {
+								dep = true
+							}
+						}
+						if dep && r.Results[errIdxFn] != errV {
+							propagated = false
+						}
+					}
+				}
+				sink, spos := firstSink(nil)
+				switch {
+				case propagated:
+					c.OK("C21.R7", cons, pos, "value and error are handed back to the caller together (the caller's test is judged at its call site)")
+				case c21OnlyLogged(w, errV) && sink != "":
+					c.Bad("C21.R7", cons, pos, "the error of "+name+" is only logged while the decoded value flows on to "+sink+" ("+spos+"): a frame that does not decode is handled as if it had")
+				default:
+					c.Unknown("C21.R7", cons, pos, "the error is neither compared with nil nor returned with the value in this function; the rule does not follow it further")
+				}
+			default:
+				var start []*ssa.BasicBlock
+				for _, e := range failE {
+					start = append(start, e.To())
+				}
+				// re-executing the decode (next loop iteration) produces a new value
+				reach := an.ReachBlocks(start, nil, map[*ssa.BasicBlock]bool{cc.Block(): true})
+				delete(reach, cc.Block())
+				sink, spos := firstSink(reach)
+				if sink == "" {
+					c.OK("C21.R7", cons, pos, "on the error edge the decoded value reaches no handler, dispatch or return")
+				} else {
+					c.Bad("C21.R7", cons, pos, "after "+name+" failed (error edge) the decoded value still flows on to "+sink+" ("+spos+"): the error is at most logged and a frame that does not decode (for hex: its valid prefix) is handled as a well-formed message")
+				}
+			}
+		}
+	}
+	c.AtLeast("C21.R7", "fallible decode sites on the receive path", nSites, 3)
+}
+
+// c21OnlyLogged: every use of the error value is an argument of an effect-free
+// (logging / formatting) call.
+func c21OnlyLogged(w *an.World, errV ssa.Value) bool {
+	if errV.Referrers() == nil || len(*errV.Referrers()) == 0 {
+		return false
+	}
+	var uses func(v ssa.Value, depth int) bool
+	uses = func(v ssa.Value, depth int) bool {
+		if depth > 4 || v.Referrers() == nil {
+			return true
+		}
+		for _, r := range *v.Referrers() {
+			switch x := r.(type) {
+			case *ssa.ChangeInterface:
+				if !uses(x, depth+1) {
+					return false
+				}
+			case *ssa.MakeInterface:
+				if !uses(x, depth+1) {
+					return false
+				}
+			case *ssa.Store:
+				// into the variadic argument array of a call
+				if ia, ok := x.Addr.(*ssa.IndexAddr); ok {
+					if al, ok := ia.X.(*ssa.Alloc); ok && al.Referrers() != nil {
+						for _, ar := range *al.Referrers() {
+							if sl, ok := ar.(*ssa.Slice); ok && !uses(sl, depth+1) {
+								return false
+							}
+						}
+						continue
+					}
+				}
+				return false
+			case ssa.CallInstruction:
+				f := x.Common().StaticCallee()
+				if f == nil || !(c21EffectFree(w, f) || !w.InModule(f)) {
+					return false
+				}
+			case *ssa.DebugRef:
+			default:
+				return false
+			}
+		}
+		return true
+	}
+	return uses(errV, 0)
+}
+
+// c21FreshErr: certainly a non-nil error (constructor call or boxed concrete value).
+func c21FreshErr(v ssa.Value) bool {
+	switch x := v.(type) {
+	case *ssa.MakeInterface:
+		_, isPtr := x.X.Type().Underlying().(*types.Pointer)
+		return !isPtr
+	case *ssa.Call:
+		if f := x.Call.StaticCallee(); f != nil && f.Pkg != nil {
+			switch f.Pkg.Pkg.Path() + "." + f.Name() {
+			case "fmt.Errorf", "errors.New":
+				return true
+			}
+		}
+	}
+	return false
 }
